@@ -3,6 +3,7 @@
 // Case lines:
 //
 //	C02.read <format> <bufsize> <input bytes, percent-escaped> <outcome> <records> <decoded>
+//	C02.scale <kind> <worst outcome> <sizes n,> <bytes,> <microseconds of the reader alone,>
 //	C02.readln <bufsize> <input> <lines returned by fileutils.Readln until its error, each followed by ",">
 //	C02.file <mode> <format> <input> <outcome> <records> <decoded> <open|noopen> <bytes the reader effectively had>
 //	C02.nest <depth> <outcome> <use class>
@@ -220,6 +221,8 @@ func Replay(c *core.Ctx, lines []string) {
 				panic(err)
 			}
 			emitLit(c, in)
+		case f[0] == "C02.scale" && len(f) >= 2:
+			scaleKind(c, f[1], scaleSizes(c))
 		case f[0] == "C02.readln" && len(f) >= 3:
 			in, err := core.Unescape(f[2])
 			if err != nil {
@@ -338,6 +341,8 @@ func Run(c *core.Ctx) {
 			reqs = append(reqs, genDec(c.G, f))
 		}
 	}
+	// size-scaling probes: the same kind of document at growing sizes, the time of the reader alone
+	scaleProbes(c)
 	// nesting probes
 	depths := []int{1000, 10000, 100000}
 	if !c.Quick() && c.Seed%1000 == 0 {
@@ -1165,7 +1170,7 @@ var sweepInputs = map[string][]string{
 
 // degenerate but VALID inputs: what the readers deliver must not crash the commands either (MedianSupport
 // before fix bbab306 and `stats tips` before fix 2681e08 crashed when the root is itself a tip).
-// `reroot outgroup` is left out: RerootOutGroup dereferences nil on 2-tip trees (observation reported, not fixed).
+// (`reroot outgroup` crashed on 2-tip trees before fix 16b4243: nil LCA.)
 var sweepDegenerate = [][2]string{{"newick", "();"}, {"newick", "(a);"}, {"newick", "((a,b));"}, {"newick", "(,);"}, {"newick", "(a,a);"}, {"newick", "(a(b));"},
 	{"newick", "((a));"}, {"newick", "(a,b);"}, {"newick", "((a,b)0.9);"}, {"newick", "((a,b)0.9,c)x;"},
 	{"phyloxml", "<phyloxml><phylogeny><clade><name>a</name></clade></phylogeny></phyloxml>"},
@@ -1176,9 +1181,6 @@ var sweepDegenerate = [][2]string{{"newick", "();"}, {"newick", "(a);"}, {"newic
 
 func cliSweep(c *core.Ctx) {
 	for k, cm := range sweepCmds {
-		if strings.HasPrefix(cm, "reroot outgroup") {
-			continue
-		}
 		n := 2
 		if !c.Quick() {
 			if c.Seed%1000 != 0 {
@@ -1268,4 +1270,72 @@ func emitReadln(c *core.Ctx, bufsize int, in []byte) {
 		lines = append(lines, l)
 	}
 	c.Emit("C02.readln", strconv.Itoa(bufsize), core.Escape(string(in)), core.StrList(lines))
+}
+
+// ------------------------------------------------------------------ size scaling
+
+var scaleKinds = []string{"blanklines", "longline", "manytrees", "treesoneline", "comment-meta", "comment-text", "star",
+	"nexus-tree", "nexus-comments", "nexus-matrix", "nexus-labels", "phyloxml-wide", "nextstrain-wide"}
+
+func scaleSizes(c *core.Ctx) []int {
+	if c.Quick() {
+		return []int{1000, 10000, 100000}
+	}
+	return []int{1000, 10000, 100000, 400000, 1000000}
+}
+
+// scaleKind runs one kind at growing sizes (each alone in a fresh worker, watchdog 30 s) and emits one case line.
+// Once a size has taken more than 1.5 s the larger ones are not tried (the growth is already visible).
+func scaleKind(c *core.Ctx, kind string, sizes []int) {
+	worst := "ok"
+	var ns, bs, us strings.Builder
+	for _, n := range sizes {
+		rep := runPool([]job{{"scale\t" + kind + "\t" + strconv.Itoa(n), 30 * time.Second}}, 1)[0]
+		f := strings.Split(rep, "\t")
+		if f[0] != "ok" && f[0] != "err" {
+			worst = f[0]
+			fmt.Fprintf(&ns, "%d,", n)
+			bs.WriteString("0,")
+			us.WriteString("0,")
+			break
+		}
+		if f[0] == "err" && worst == "ok" {
+			worst = "err"
+		}
+		if len(f) < 4 {
+			worst = "bad"
+			break
+		}
+		fmt.Fprintf(&ns, "%d,", n)
+		bs.WriteString(f[2] + ",")
+		us.WriteString(f[3] + ",")
+		if t, _ := strconv.Atoi(f[3]); t > 1500000 {
+			break
+		}
+	}
+	scaleMu.Lock()
+	c.Emit("C02.scale", kind, worst, ns.String(), bs.String(), us.String())
+	scaleMu.Unlock()
+}
+
+var scaleMu sync.Mutex
+
+func scaleProbes(c *core.Ctx) {
+	if !c.Quick() && c.Seed%1000 != 0 {
+		return
+	}
+	var wg sync.WaitGroup
+	sem := make(chan struct{}, 4)
+	lines := make([]func(), 0)
+	_ = lines
+	for _, k := range scaleKinds {
+		wg.Add(1)
+		sem <- struct{}{}
+		go func(k string) {
+			defer wg.Done()
+			defer func() { <-sem }()
+			scaleKind(c, k, scaleSizes(c))
+		}(k)
+	}
+	wg.Wait()
 }
